@@ -348,10 +348,11 @@ func main() {
 	noReplay := fs.Bool("no-replay", false, "do not replay counterexamples natively")
 	initStd := fs.String("init-std", "errors,unicode/utf8", "std packages whose initialisers are executed")
 	seed := fs.Int64("seed", 0, "seed (recorded; exploration is deterministic)")
+	stripImports := fs.String("strip-imports", "", "blank imports dropped from the analysed copy (comma-separated)")
 	fs.Parse(os.Args[2:])
 
 	start := time.Now()
-	lc := LoadConfig{PkgDir: *pkgDir, Harness: splitList(*harness), RTDecl: *rt, Models: splitList(*models), ExtraPkgs: splitList(*extra)}
+	lc := LoadConfig{PkgDir: *pkgDir, Harness: splitList(*harness), RTDecl: *rt, Models: splitList(*models), ExtraPkgs: splitList(*extra), StripImports: splitList(*stripImports)}
 	l, err := Load(lc)
 	if err != nil {
 		fmt.Fprintln(os.Stderr, "INCONCLUSIVE load:", err)
